@@ -974,6 +974,26 @@ func frSignedByKey(h *Hist, pub string, m *frWire) (known, ok bool) {
 	return false, false
 }
 
+// frAuthorised tells whether a free_allocation_request may debit the contract owner's wallet: the marker in the transaction
+// input names the sender as recipient, is signed by the key of an assigner the monitor saw registered, and carries a nonce that
+// assigner's markers have not used before (the monitor's own set; C04 is evaluated before C24 records the current transaction).
+func frAuthorised(h *Hist, o *TxnObs) bool {
+	if o.Txn.FunctionName != "free_allocation_request" {
+		return false
+	}
+	m := frDecode(o.Txn.InputData)
+	if m == nil || m.Recipient != o.Txn.ClientID {
+		return false
+	}
+	fm := frModelOf(h)
+	pub, reg := fm.Key[m.Assigner]
+	if !reg || fm.Nonces[m.Assigner][m.Nonce] {
+		return false
+	}
+	known, ok := frSignedByKey(h, pub, m)
+	return known && ok
+}
+
 // ---- directed scenario (C24, C04): redemptions OUT OF nonce order, then every redeemed marker again ------------------------------------
 
 func init() {
